@@ -63,10 +63,49 @@ KF_KEY = "seek-from-end-sign"
 
 def plan(tier):
     n = 2500 if tier == "quick" else 200000
-    return [(c, n) for c in CLASSES]
+    return [(c, n) for c in CLASSES] + \
+        [("huge", 8 if tier == "quick" else 300)]
+
+
+def gen_huge(rng):
+    """Allocations of megabytes (a neural network's weight matrices are):
+    whole and partial transfers far beyond a megabyte, through the view of
+    the allocation and through large slices of it that end short of it."""
+    MiB = 1 << 20
+    length = rng.choice([MiB + 1, MiB + MiB // 2, 2 * MiB + 17, 3 * MiB - 5,
+                         rng.randint(MiB, 3 * MiB)])
+    ops = []
+    n_views = 1
+    for _ in range(rng.randint(3, 6)):
+        v = rng.randrange(n_views)
+        k = rng.random()
+        if k < .25:
+            ops.append(("seek", v, rng.choice([0, 1, 4, 1000, MiB - 1, MiB,
+                                               rng.randrange(MiB // 2)]), 0))
+        elif k < .6:
+            ops.append(("read", v, rng.choice(
+                [None, MiB + 1, MiB + MiB // 2, length - 5, 2 * MiB - 1,
+                 rng.randint(MiB + 1, length)])))
+        elif k < .85 and n_views < 4:
+            ops.append(("slice", v, rng.choice([None, 0, 3, 4096,
+                                                rng.randrange(MiB // 4)]),
+                        rng.choice([None, -1, -4, -rng.randint(1, 200000),
+                                    length - rng.randint(1, 5000)]), None))
+            n_views += 1
+        elif k < .93:
+            ops.append(("write", v, bytes([rng.randrange(1, 256)]) *
+                        (MiB + rng.choice([1, 33, 4096]))))
+        else:
+            ops.append((rng.choice(["tell", "len", "address"]), v))
+    ops.append(("read", rng.randrange(n_views), None))
+    return dict(length=length, base=0x60200000 + 4 * rng.randrange(1000),
+                buf=rng.choice([256, 256, 512]), ops=ops, huge=True,
+                seed=4 * rng.randrange(1 << 28) + 2)
 
 
 def gen(cls, idx, rng, tier):
+    if cls == "huge":
+        return gen_huge(rng)
     length = rng.choice([0, 1, 2, 3, 5, 16, 63, 64, 100, 257,
                          rng.randint(0, 600)])
     if cls == "tiny":
@@ -268,8 +307,19 @@ def run(case, ctx):
         chip.allocs[base] = (length, 0, 30)
         root_obj = mcm.MemoryIO(mc, 0, 0, base, base + length)
     # surround and fill the region with recognisable bytes
-    chip.wr(base - 64, bytes(rng.getrandbits(8) for _ in range(length + 128)),
-            log=False)
+    if case.get("huge"):
+        # (islands of them: the memory model keeps one entry per byte)
+        ctx.hit("megabyte_view")
+        marks = [base - 64, base + length - 64] + \
+            [base + k - 64 for k in range(1 << 20, length, 1 << 20)] + \
+            [base + rng.randrange(length) for _ in range(40)]
+        for a in marks:
+            chip.wr(a, bytes(1 + rng.getrandbits(8) % 255
+                             for _ in range(128)), log=False)
+    else:
+        chip.wr(base - 64,
+                bytes(rng.getrandbits(8) for _ in range(length + 128)),
+                log=False)
     views = [View(root_obj, base, base + length, 0)]
     freed = False
     trunc = outside = slice_of_slice = 0
